@@ -1,7 +1,7 @@
 //verif:pkg .
 //verif:use fakes_client
 //verif:use fakes_mcp
-//verif:bound one adversarial frame - thorough: two consecutive ones of independently chosen kinds on the legacy stream - (an arbitrary JSON document of depth <= 2 that is not the pending call's own answer, truncated JSON, a line of 3 printable ASCII bytes starting with an upper-case letter, comments and blank lines, an event without data, empty data, an unexpected endpoint event, id/retry fields only; on the GET stream also a 70000-byte frame) placed before, inside or after the valid answer of call 1, followed by a well-formed call 2 and Close; plus the call's own id with an arbitrary result document (depth <= 3) for each of tools/call, tools/list, prompts/list, prompts/get, resources/list, resources/read; Streamable client with JSON answers, with SSE answers (with and without a registered notification handler) and on its GET stream, legacy SSE client, stdio client transport
+//verif:bound one adversarial frame - thorough: two consecutive ones of independently chosen kinds on the legacy stream - (an arbitrary JSON document of depth <= 2 that is not the pending call's own answer, truncated JSON, a line of 3 printable ASCII bytes starting with an upper-case letter, comments and blank lines, an event without data, empty data, an unexpected endpoint event, id/retry fields only, a well-formed response with an unknown id, with a string id, an error response with a null id; on the GET stream also a 70000-byte frame) placed before, inside or after the valid answer of call 1, followed by a well-formed call 2 and Close; plus the call's own id with an arbitrary result document (depth <= 3) for each of tools/call, tools/list, prompts/list, prompts/get, resources/list, resources/read; Streamable client with JSON answers, with SSE answers (with and without a registered notification handler) and on its GET stream, legacy SSE client, stdio client transport
 //verif:assume several adversarial frames in one exchange, frames split across reads at arbitrary byte offsets and CPU-time measurement are outside the bound; a goroutine that re-reads a sticky decoder error three times is taken to spin forever
 package mcp
 
@@ -60,15 +60,18 @@ func c07Garbage() string {
 	return string(b)
 }
 
-const c07Kinds = 8
+const c07Kinds = 11
 
 // c07BadSSE: adversarial content for an SSE stream (complete lines).
-func c07BadSSE(kind int, callID int64) string {
+func c07BadSSE(kind int, callID int64) string { return c07BadSSEp(kind, callID, "") }
+
+// c07BadSSEp: prefix is "event: message\n" on the legacy stream (whose reader dispatches typed events only).
+func c07BadSSEp(kind int, callID int64, prefix string) string {
 	switch kind {
 	case 0:
-		return "data: " + string(c07Foreign(callID)) + "\n\n"
+		return prefix + "data: " + string(c07Foreign(callID)) + "\n\n"
 	case 1:
-		return "data: " + string(vJSONInvalid()) + "\n\n"
+		return prefix + "data: " + string(vJSONInvalid()) + "\n\n"
 	case 2:
 		return c07Garbage() + "\n"
 	case 3:
@@ -76,18 +79,24 @@ func c07BadSSE(kind int, callID int64) string {
 	case 4:
 		return "event: message\n\n"
 	case 5:
-		return "data:\n\n"
+		return prefix + "data:\n\n"
 	case 6:
 		return "event: endpoint\ndata: /message?sessionId=zzz\n\n"
+	case 7:
+		return "id: 99\nretry: 5\n\n"
+	case 8: // a well-formed response nobody is waiting for
+		return "event: message\ndata: {\"jsonrpc\":\"2.0\",\"id\":424242,\"result\":{}}\n\n"
+	case 9: // a response whose id has the wrong type
+		return "event: message\ndata: {\"jsonrpc\":\"2.0\",\"id\":\"zz\",\"result\":{}}\n\n"
 	}
-	return "id: 99\nretry: 5\n\n"
+	return "event: message\ndata: {\"jsonrpc\":\"2.0\",\"id\":null,\"error\":{\"code\":-32700,\"message\":\"Parse error\"}}\n\n"
 }
 
 // c07Bads: one adversarial frame (quick) or two consecutive ones of independently chosen kinds (thorough).
-func c07Bads(kind int, callID int64) string {
-	out := c07BadSSE(kind, callID)
+func c07Bads(kind int, callID int64, prefix string) string {
+	out := c07BadSSEp(kind, callID, prefix)
 	if vTier() == 1 {
-		out += c07BadSSE(vChoice("bad2", c07Kinds), callID)
+		out += c07BadSSEp(vChoice("bad2", c07Kinds), callID, prefix)
 	}
 	return out
 }
@@ -325,7 +334,7 @@ func H_C07_legacy_client() {
 		}
 		posts++
 		if posts == 1 {
-			stream.push([]byte(c07Place(pos, c07Bads(kind, 1), c07Answer(id, "yours"), "event: message\n")))
+			stream.push([]byte(c07Place(pos, c07Bads(kind, 1, "event: message\n"), c07Answer(id, "yours"), "event: message\n")))
 		} else {
 			stream.push([]byte("event: message\ndata: " + string(c07Answer(id, "yours2")) + "\n\n"))
 		}
